@@ -92,6 +92,7 @@ type simCluster struct {
 	serWrap    func(n *simNode, s pilosa.Serializer) pilosa.Serializer
 	aeInterval time.Duration
 	idFor      func(i int) string // node id of the i-th node (default "node<i>")
+	dirPrefix  string             // distinguishes the data directories of a second cluster in one run
 }
 
 // joinNodeAsync builds nd and opens it in a background task, then delivers its
@@ -132,7 +133,7 @@ func (cl *simCluster) addNodeSpec() *simNode {
 	if cl.idFor != nil {
 		id = cl.idFor(i)
 	}
-	nd := &simNode{cl: cl, idx: i, id: id, host: host, uri: uri, dir: fmt.Sprintf("%s/node%d", cl.c.Dir, i), coord: i == 0}
+	nd := &simNode{cl: cl, idx: i, id: id, host: host, uri: uri, dir: fmt.Sprintf("%s/%snode%d", cl.c.Dir, cl.dirPrefix, i), coord: i == 0}
 	cl.nodes = append(cl.nodes, nd)
 	return nd
 }
